@@ -3,6 +3,8 @@ package check
 import (
 	"fmt"
 	"go/ast"
+	"go/constant"
+	"go/token"
 	"go/types"
 	"os"
 	"path/filepath"
@@ -344,6 +346,188 @@ func runSVG(c *Ctx, r *Reporter) {
 	}
 	if ne < 5 {
 		r.Undecided("expected the drawing methods and Push to assign rt.elements (found %d stores)", ne)
+	}
+	// the background rectangle of clear always carries a colour of its own: what is stored into its Fill and Stroke
+	// is a non-empty constant or the parameter on the edge where it was found non-empty. A rectangle without own
+	// attributes is not protected from the pen in Push and is drawn black (or in the pen's colour).
+	if fd, sf := method("Clear"); sf != nil && len(sf.Params) == 2 {
+		prm := sf.Params[1]
+		var nonEmpty func(v ssa.Value, via *ssa.BasicBlock, to *ssa.BasicBlock, depth int) bool
+		nonEmpty = func(v ssa.Value, via, to *ssa.BasicBlock, depth int) bool {
+			if depth > 4 {
+				return false
+			}
+			switch x := v.(type) {
+			case *ssa.Const:
+				return x.Value != nil && x.Value.Kind() == constant.String && constant.StringVal(x.Value) != ""
+			case *ssa.Parameter:
+				if x != prm {
+					return false
+				}
+				// on the edge via→to the parameter was compared with "" and found different, or a dominator did so
+				check := func(b *ssa.BasicBlock, target *ssa.BasicBlock) bool {
+					if b == nil || len(b.Instrs) == 0 {
+						return false
+					}
+					ifi, ok := b.Instrs[len(b.Instrs)-1].(*ssa.If)
+					if !ok {
+						return false
+					}
+					bo, ok := ifi.Cond.(*ssa.BinOp)
+					if !ok || (bo.Op != token.EQL && bo.Op != token.NEQ) || bo.X != ssa.Value(prm) {
+						return false
+					}
+					k, ok := bo.Y.(*ssa.Const)
+					if !ok || k.Value == nil || k.Value.Kind() != constant.String || constant.StringVal(k.Value) != "" {
+						return false
+					}
+					edge := 1
+					if bo.Op == token.NEQ {
+						edge = 0
+					}
+					return b.Succs[edge] == target
+				}
+				if check(via, to) {
+					return true
+				}
+				for d := via; d != nil; d = d.Idom() {
+					if id := d.Idom(); id != nil && check(id, d) && len(d.Preds) == 1 {
+						return true
+					}
+				}
+				return false
+			case *ssa.Phi:
+				for i, e := range x.Edges {
+					if !nonEmpty(e, x.Block().Preds[i], x.Block(), depth+1) {
+						return false
+					}
+				}
+				return len(x.Edges) > 0
+			}
+			return false
+		}
+		nc := 0
+		for _, b := range sf.Blocks {
+			for _, ins := range b.Instrs {
+				st, ok := ins.(*ssa.Store)
+				if !ok {
+					continue
+				}
+				fa, ok := st.Addr.(*ssa.FieldAddr)
+				if !ok {
+					continue
+				}
+				owner, fname := fieldAddrInfo(fa)
+				if owner == nil || owner.Obj().Name() != "Attr" || (fname != "Fill" && fname != "Stroke") {
+					continue
+				}
+				nc++
+				r.Check(nonEmpty(st.Val, b, b, 0), "svg.Clear#own-colour:"+fname, p.Rel(instrPos(st)), "the background rectangle always gets a colour of its own",
+					"the "+fname+" of clear's background rectangle can be the empty string (the parameter is stored without the `== \"\"` default): a rectangle without attributes of its own is not shielded from the pen in Push, so `clear \"\"` paints the canvas black or in the pen's colour")
+			}
+		}
+		if nc == 0 {
+			r.Viol("svg.Clear#own-colour", p.Rel(fd.Decl.Pos()), "Clear gives its background rectangle no colour of its own")
+		}
+	}
+	// Push decides whether the pending shapes need attributes by looking at the whole pen: either the pen is
+	// compared with the default as a struct, or every field of Attr is read by the deciding helper. A field that
+	// is left out (the dash pattern, say) is silently dropped for a pen that differs from the default only there.
+	{
+		attrT, _ := pkg.Types.Scope().Lookup("Attr").(*types.TypeName)
+		if attrT == nil {
+			r.Undecided("type Attr not found")
+		} else {
+			attrStruct := attrT.Type().Underlying().(*types.Struct)
+			all := map[string]bool{}
+			for i := 0; i < attrStruct.NumFields(); i++ {
+				all[attrStruct.Field(i).Name()] = true
+			}
+			var fieldsRead func(fn *ssa.Function, depth int, seen map[*ssa.Function]bool) (map[string]bool, bool)
+			fieldsRead = func(fn *ssa.Function, depth int, seen map[*ssa.Function]bool) (map[string]bool, bool) {
+				out := map[string]bool{}
+				whole := false
+				if fn == nil || seen[fn] || depth > 2 {
+					return out, false
+				}
+				seen[fn] = true
+				for _, b := range fn.Blocks {
+					for _, ins := range b.Instrs {
+						switch x := ins.(type) {
+						case *ssa.BinOp:
+							if (x.Op == token.EQL || x.Op == token.NEQ) && types.Identical(x.X.Type(), attrT.Type()) {
+								whole = true
+							}
+						case *ssa.FieldAddr:
+							if o, f := fieldAddrInfo(x); o != nil && o.Obj() == attrT {
+								out[f] = true
+							}
+						case *ssa.Field:
+							if o, f := fieldValInfo(x); o != nil && o.Obj() == attrT {
+								out[f] = true
+							}
+						}
+					}
+				}
+				return out, whole
+			}
+			// the condition that guards setAttr in Push
+			var guards []ssa.Value
+			for _, b := range pushFn.Blocks {
+				for _, ins := range b.Instrs {
+					ci, ok := ins.(ssa.CallInstruction)
+					if !ok || !(ci.Common().IsInvoke() && ci.Common().Method.Name() == "setAttr") {
+						continue
+					}
+					for d := b; d != nil; d = d.Idom() {
+						if id := d.Idom(); id != nil && len(id.Instrs) > 0 {
+							if ifi, ok := id.Instrs[len(id.Instrs)-1].(*ssa.If); ok && edgeDominates(id, 0, b) {
+								guards = append(guards, ifi.Cond)
+							}
+						}
+					}
+				}
+			}
+			covered := false
+			missing := ""
+			for _, g := range guards {
+				for i := 0; i < 3; i++ {
+					if u, ok := g.(*ssa.UnOp); ok && u.Op == token.NOT {
+						g = u.X
+					}
+				}
+				switch x := g.(type) {
+				case *ssa.BinOp:
+					if (x.Op == token.EQL || x.Op == token.NEQ) && types.Identical(x.X.Type(), attrT.Type()) {
+						covered = true
+					}
+				case *ssa.Call:
+					if sc := x.Call.StaticCallee(); sc != nil {
+						got, whole := fieldsRead(sc, 0, map[*ssa.Function]bool{})
+						if whole {
+							covered = true
+							break
+						}
+						covered = true
+						for f := range all {
+							if !got[f] {
+								covered = false
+								missing = f
+							}
+						}
+					}
+				}
+				if covered {
+					break
+				}
+			}
+			if len(guards) == 0 {
+				r.Undecided("Push: no condition guards the call of setAttr")
+			} else {
+				r.Check(covered, "svg.Push#styled-test-covers-the-pen", p.Rel(pushFn.Pos()), "whether the shapes need attributes is decided on the whole pen",
+					"Push decides whether the pending shapes get the pen's attributes without looking at the pen's "+missing+": a pen that differs from the default only there (`dash 5 3` then a line) is written without it")
+			}
+		}
 	}
 	// sibling agreement with the browser runtime: every canvas style property that the JavaScript gridn overrides
 	// while it draws (and restores afterwards) is a pen attribute the grid must not inherit; the SVG Gridn has to
